@@ -118,6 +118,30 @@ Proof.
   destruct (Z.eq_dec x 0) as [->|N]; [reflexivity|]. rewrite Z.sgn_pos by lia. lia.
 Qed.
 
+(** * the normaliser of decision trees preserves their meaning *)
+Lemma ne_eq_flip st arg sz a b :
+  match ev st arg sz (EOp "!=" [a; b]), ev st arg sz (EOp "==" [a; b]) with
+  | VI x, VI y => (x =? 0) = negb (y =? 0)
+  | VI _, _ | _, VI _ => False
+  | _, _ => True
+  end.
+Proof.
+  cbn [ev map]. destruct (ev st arg sz a) as [x|s| |n|se us|u|tm|]; destruct (ev st arg sz b) as [y|s'| |n'|se' us'|u'|tm'|]; cbn; auto;
+    try (destruct (x =? y); reflexivity); try (destruct (y =? 0); cbn; auto).
+Qed.
+Lemma eval_norm st arg sz t : eval_tree st arg sz (norm_tree t) = eval_tree st arg sz t.
+Proof.
+  induction t as [f l|r b|c t1 IH1 t2 IH2|w]; try reflexivity.
+  assert (D : eval_tree st arg sz (TIf c (norm_tree t1) (norm_tree t2)) = eval_tree st arg sz (TIf c t1 t2)) by (cbn [eval_tree]; now rewrite IH1, IH2).
+  destruct c as [ | | | | | | | | |op args| | | | | ]; try exact D. destruct args as [|a [|b [|x l]]]; try exact D.
+  cbn [norm_tree]. destruct (String.eqb_spec op "!=") as [->|NE]; [|exact D].
+  pose proof (ne_eq_flip st arg sz a b) as F. cbn [eval_tree]. rewrite IH1, IH2.
+  destruct (ev st arg sz (EOp "!=" [a; b])) as [x| | | | | | |]; destruct (ev st arg sz (EOp "==" [a; b])) as [y| | | | | | |]; try contradiction; try reflexivity.
+  rewrite F. destruct (y =? 0); reflexivity.
+Qed.
+Lemma same_tree_eval st arg sz a b : same_tree a b = true -> eval_tree st arg sz a = eval_tree st arg sz b.
+Proof. unfold same_tree. intros H. apply tree_eqb_eq in H. rewrite <- (eval_norm st arg sz a), <- (eval_norm st arg sz b). now rewrite H. Qed.
+
 (** * the translated trees of the table class mean what the documentation says *)
 Ltac crunch := cbn -[decz render_int wrap takeZ takeN Z.add Z.sub nz zn zlen print_out cdiv fits name_of_uid t_strftime].
 
@@ -523,13 +547,13 @@ Section General.
   Proof. unfold ds_consts_ok in OK. do 6 (apply andb_true_iff in OK as [OK ?]). unfold c; repeat split; assumption. Qed.
 
   Lemma entry_of name : In name tree_class ->
-    exists e t, lookup g name = Some e /\ expected c name = Some t /\ (de_tree e = t \/ In (de_tree e) (alternatives name)).
+    exists e t, lookup g name = Some e /\ expected c name = Some t /\
+      (same_tree (de_tree e) t = true \/ exists a, In a (alternatives name) /\ same_tree (de_tree e) a = true).
   Proof.
     intros I. destruct ok_parts as [A _]. pose proof (proj1 (forallb_forall _ _) A name I) as E. unfold entry_ok in E. fold c in E.
     destruct (lookup g name) as [e|]; [|discriminate]. destruct (expected c name) as [t|]; [|discriminate].
-    exists e, t. repeat split. apply orb_true_iff in E as [E|E].
-    - left. now apply tree_eqb_eq.
-    - right. apply existsb_exists in E as [x [Ix Ex]]. apply tree_eqb_eq in Ex. now subst.
+    exists e, t. repeat split. apply orb_true_iff in E as [E|E]; [now left|].
+    right. apply existsb_exists in E as [x [Ix Ex]]. now exists x.
   Qed.
 
   Lemma sep_space : sep cc = [SP].  Proof. apply list_eqb_eq. exact CCOK. Qed.
@@ -538,9 +562,9 @@ Section General.
     match goal with
     | |- eval_ds _ _ ?n ?st ?arg ?sz = _ =>
       let e := fresh "e" in let t := fresh "t" in let L := fresh "L" in let X := fresh "X" in let T := fresh "T" in
-      destruct (entry_of n) as (e & t & L & X & [T|T]); [cbn; tauto | | cbn in T; contradiction];
+      destruct (entry_of n) as (e & t & L & X & [T|(? & T & _)]); [cbn; tauto | | cbn in T; contradiction];
       change (eval_ds g cc n st arg sz) with (match lookup g n with Some e => eval_tree st arg sz (de_tree e) | None => None end);
-      rewrite L, T; apply lem; auto
+      rewrite L, (same_tree_eval st arg sz _ _ T); apply lem; auto
     end.
 
   Theorem table_general : forall name st arg sz, In name simple_class -> in_domain g name st arg sz ->
@@ -573,11 +597,11 @@ Section General.
       destruct (entry_of "timestamp") as (e & t & L & X & T); [cbn; tauto|].
       change (eval_ds g cc "timestamp" st arg sz) with (match lookup g "timestamp" with Some e => eval_tree st arg sz (de_tree e) | None => None end).
       specialize (Dts eq_refl). unfold ts_exact_below in Dts. rewrite L in *.
-      destruct (tree_eqb (de_tree e) t_timestamp_wide) eqn:W.
-      + apply tree_eqb_eq in W. rewrite W. now apply doc_timestamp_wide.
-      + destruct T as [T|T].
-        * cbn in X. injection X as <-. rewrite T. now apply doc_timestamp_int.
-        * cbn in T. destruct T as [T|[]]. rewrite <- T. now apply doc_timestamp_wide.
+      destruct (same_tree (de_tree e) t_timestamp_wide) eqn:W.
+      + rewrite (same_tree_eval st arg sz _ _ W). now apply doc_timestamp_wide.
+      + destruct T as [T|(a & Ia & T)].
+        * cbn in X. injection X as <-. rewrite (same_tree_eval st arg sz _ _ T). now apply doc_timestamp_int.
+        * cbn in Ia. destruct Ia as [<-|[]]. congruence.
     - by_tree doc_timestamp_ms.
     - by_tree doc_timestamp_us.
     - by_tree doc_version.
@@ -663,4 +687,4 @@ Proof.
   intros OK env sz H. destruct (ok_parts g OK) as (_ & EA & _). split; [now apply (env_all_spec_ok (g_consts g) EA) | now apply (env_all_fits (g_consts g) EA)].
 Qed.
 Lemma ts_bound_general g : two31 <= ts_exact_below g.
-Proof. unfold ts_exact_below. destruct (lookup g "timestamp") as [e|]; [destruct (tree_eqb _ _)|]; unfold two31, two63; lia. Qed.
+Proof. unfold ts_exact_below. destruct (lookup g "timestamp") as [e|]; [destruct (same_tree _ _)|]; unfold two31, two63; lia. Qed.
